@@ -111,7 +111,7 @@ def cmd_matrix(names, tier="quick"):
     for name in names_or_all(names):
         dst = os.path.join(SEEDED, name)
         patch = open(os.path.join(dst, "patch.diff")).read()
-        files = sorted({os.path.basename(l.split()[-1]) for l in patch.splitlines() if l.startswith("+++ ")})
+        files = sorted({os.path.basename(l.split()[1]) for l in patch.splitlines() if l.startswith("+++ ")})
         meta = json.load(open(os.path.join(dst, "meta.json")))
         checks = [meta["property"]] + [c for f in files for c in CHECKS_FOR.get(f, []) if c != meta["property"]]
         checks = list(dict.fromkeys(checks))
